@@ -47,6 +47,32 @@ def compute_target(target, settings=None, tmpdir=None):
                 if again != out:
                     return {'__resolve_differs__': [k for k in out if out[k] != again.get(k)][:5]}
             return out
+        if target['type'] == 'staged_sim':
+            # a SIM economy put together in two stages; whatever the process does in between is none of its business
+            from sfc_models.models import Model, Country
+            from sfc_models.sector import Market
+            from sfc_models.sector_definitions import Household, ConsolidatedGovernment, FixedMarginBusiness, TaxFlow
+            def pause():
+                for hook in settings.get('mid_construction', []):
+                    hook()
+            mod = Model()
+            ca = Country(mod, 'CA', 'Canada')
+            pause()
+            gov = ConsolidatedGovernment(ca, 'GOV', 'Government')
+            pause()
+            Household(ca, 'HH', 'Household', alpha_income=target['a1'], alpha_fin=target['a2'])
+            pause()
+            FixedMarginBusiness(ca, 'BUS', 'Business')
+            pause()
+            TaxFlow(ca, 'TF', 'Tax flow', target['tax'])
+            pause()
+            Market(ca, 'LAB', 'Labour')
+            pause()
+            Market(ca, 'GOOD', 'Goods')
+            gov.SetExogenous('DEM_GOOD', repr(target['g']))
+            mod.MaxTime = target['maxtime']
+            mod.main()
+            return series_repr(mod.EquationSolver.TimeSeries)
         from sfc_models.equation_solver import EquationSolver
         s = EquationSolver(run_equation_reduction=target['reduction'])
         s.MaxIterations = 4000
@@ -114,7 +140,8 @@ class C17(object):
                          'reparse.warning_raised_as_error',
                          'reparse.fallback_after_failed_search',
                          'reparse.second_block_is_empty',
-                         'history.same_text_and_options_solved_with_other_callables_under_the_same_names')
+                         'history.same_text_and_options_solved_with_other_callables_under_the_same_names',
+                         'history.small_models_created_and_solved_between_two_construction_stages')
 
     def n_cases(self, tier):
         return 32 if tier == 'quick' else 1200
@@ -199,6 +226,21 @@ class C17(object):
             # target's own variables), and the target itself is re-solved
             hist.insert(rng.randint(0, len(hist)), {'op': 'other_solver_excludes', 'name': 'SIM', 'maxtime': 1})
             settings['resolves'] = max(1, settings['resolves'])
+        if idx % 8 == 5 and (idx // 8) % 2 == 1:
+            if (idx // 16) % 2 == 0:
+                # a model put together in two stages, with other (smaller and larger) models created and solved in between
+                target = {'type': 'staged_sim', 'a1': rng.choice([0.6, 0.7]), 'a2': rng.choice([0.3, 0.4]), 'tax': rng.choice([0.2, 0.25]),
+                          'g': [float(rng.randint(10, 30)) for _ in range(8)], 'maxtime': rng.randint(2, 5)}
+                hist = [{'op': 'small_models_between_stages', 'name': 'SIM', 'maxtime': 2}] + hist[:2]
+            else:
+                # a hand-written block with a heading line that is not an equation (reported with a warning, otherwise ignored),
+                # after complete model runs earlier in the process
+                target = {'type': 'block', 'reduction': rng.random() < 0.5, 'steady': False,
+                          'text': 'Income block\ny = c + g\nc = %r*y\n-- end of block --\nMaxTime = %d\nexogenous\ng = [%r]*9'
+                                  % (rng.choice([0.5, 0.6]), rng.randint(2, 6), float(rng.randint(5, 20)))}
+                hist = [{'op': 'build_solve', 'name': rng.choice(['SIM', 'PC']), 'maxtime': 2}] + hist[:2]
+            settings['trace'] = None
+            settings['resolves'] = 0
         if idx % 8 == 5 and (idx // 8) % 2 == 0:
             # the target uses user functions AND the steady-state option; earlier in the process another solver was given exactly
             # the same text and the same options but OTHER callables under the same names
@@ -270,6 +312,24 @@ class C17(object):
                             pass
                     rival()              # before the target is configured ...
                     hooks.append(rival)  # ... and again between its configuration and its solve
+                elif op['op'] == 'small_models_between_stages':
+                    calls = [0]
+
+                    def stage_hook():
+                        # every pause creates (and solves) a small model of another size: 0, 1, 2, ... objects
+                        calls[0] += 1
+                        # (sizes chosen so that, were identifiers handed out per model, the next object of the staged model would
+                        # take the identifier of one declared two steps earlier)
+                        for n_obj in (7, max(0, calls[0] - 3)):
+                            m_ = Model()
+                            if n_obj:
+                                c_ = Country(m_, 'ZZ', 'between the stages')
+                                for i_ in range(n_obj - 1):
+                                    Sector(c_, 'S%d' % i_, 'x', has_F=False).AddVariable('X', 'x', '1.0')
+                                m_.MaxTime = 1
+                                m_.main()
+                    hooks.append(stage_hook)
+                    rec.count('history.small_models_created_and_solved_between_two_construction_stages')
                 elif op['op'] == 'same_text_other_functions':
                     o = EquationSolver(run_equation_reduction=target.get('reduction', True))
                     o.MaxIterations = 4000
@@ -311,6 +371,7 @@ class C17(object):
         settings = dict(case['settings'])
         settings['between_build_and_main'] = hooks
         settings['between_config_and_solve'] = hooks
+        settings['mid_construction'] = hooks
         try:
             got = compute_target(case['target'], settings, tmpdir=tmp)
         except Exception as e:
